@@ -1017,10 +1017,18 @@ def enum_listing_in_declaration_order(ctx: Ctx, rule: str, cls_q: str, why: str)
     n = 0
     for m in k.methods.values():
         for r in m.own_nodes():
-            if isinstance(r, ast.Return) and isinstance(r.value, (ast.List, ast.Tuple)) and r.value.elts and all(
-                    isinstance(e, ast.Attribute) and isinstance(e.value, ast.Name) and e.value.id in (k.name, "cls") for e in r.value.elts):
+            val = r.value if isinstance(r, ast.Return) else None
+            # (the list may be a module-level constant that the method returns, or a copy of it)
+            if isinstance(val, ast.Call) and len(val.args) == 1 and not val.keywords and unparse(val.func) in ("list", "tuple"):
+                val = val.args[0]
+            if isinstance(val, ast.Name):
+                sts = m.module.assigns.get(val.id, [])
+                if len(sts) == 1 and getattr(sts[0], "value", None) is not None:
+                    val = sts[0].value
+            if isinstance(val, (ast.List, ast.Tuple)) and val.elts and all(
+                    isinstance(e, ast.Attribute) and isinstance(e.value, ast.Name) and e.value.id in (k.name, "cls") for e in val.elts):
                 n += 1
-                got = [e.attr for e in r.value.elts]  # type: ignore
+                got = [e.attr for e in val.elts]  # type: ignore
                 desc = f"{k.name}.{m.name} lists the members in their declaration order"
                 if got == members:
                     rep.ok(rule, m.qname, desc, m.loc(r))
